@@ -199,3 +199,23 @@ func DecodeRLE(r [][2]uint32) []uint32 {
 	}
 	return out
 }
+
+// NewRaw returns an unrecorded generator (for per-role randomness whose
+// values must not depend on the schedule).
+func NewRaw(seed uint64) *Stream { return &Stream{state: Mix(seed, 0x7a77)} }
+
+// RawFill fills p from the generator state without recording anything.
+func (st *Stream) RawFill(p []byte) {
+	for i := 0; i < len(p); i += 8 {
+		x := splitmix(&st.state)
+		for j := 0; j < 8 && i+j < len(p); j++ {
+			p[i+j] = byte(x >> (8 * j))
+		}
+	}
+}
+
+// Read makes a raw generator usable as an io.Reader.
+func (st *Stream) Read(p []byte) (int, error) {
+	st.RawFill(p)
+	return len(p), nil
+}
